@@ -644,21 +644,29 @@ func init() {
 		for _, s := range sources {
 			nops[s] = len(recordOps(s))
 		}
-		stride := 16
+		// close+reopen after write position p: every p (thorough) / every 5th p of static3 and every 25th of join3to4 (quick)
 		for _, s := range sources {
-			for from := 0; from < nops[s]; from += stride {
-				if !th && s != scStatic3 && from%(4*stride) != 0 {
-					continue
+			step := 1
+			if !th {
+				step = 5
+				if s != scStatic3 {
+					step = 25
 				}
-				items = append(items, StoreItem{Mode: "reopen", Source: s, Cache: 4, From: from, To: from + stride})
-				if !th && s == scStatic3 {
-					continue
+			}
+			var chunk []int
+			for p := 0; p < nops[s]; p += step {
+				chunk = append(chunk, p)
+				if len(chunk) == 8 || p+step >= nops[s] {
+					for _, q := range chunk {
+						items = append(items, StoreItem{Mode: "reopen", Source: s, Cache: 4, From: q, To: q + 1})
+					}
+					chunk = nil
 				}
 			}
 		}
-		depth := 5
+		depth := 4
 		if th {
-			depth = 6
+			depth = 5
 		}
 		for a := 0; a < 8; a++ {
 			for b := 0; b < 8; b++ {
